@@ -607,7 +607,11 @@ func canonNamed(n *types.Named) *types.Named {
 				if !ok || m == n || m.TypeParams().Len() != 0 {
 					continue
 				}
-				if types.Identical(m.Underlying(), n.Underlying()) && strings.EqualFold(m.Obj().Name(), n.Obj().Name()) {
+				nm := n.Obj().Name()
+				if a, ok := typeNameAlias[shortPkg(n.Obj().Pkg().Path())+"."+nm]; ok {
+					nm = a[strings.Index(a, ".")+1:] // (renamed: its reference name)
+				}
+				if types.Identical(m.Underlying(), n.Underlying()) && strings.EqualFold(m.Obj().Name(), nm) {
 					res = m
 				}
 			}
@@ -747,7 +751,7 @@ func descD(v ssa.Value, depth int) string {
 		if d, ok := virtualParamDesc(x, depth); ok {
 			return d
 		}
-		return descD(x.X, depth+1) + "." + fieldName(x.X.Type(), x.Field)
+		return descD(x.X, depth+1) + "." + refFieldName(typeKey(x.X.Type()), fieldName(x.X.Type(), x.Field))
 	case *ssa.UnOp:
 		switch x.Op {
 		case token.MUL:
